@@ -4,7 +4,7 @@ from tools import common as C, wire, oracle as O
 LEAN_MODULES = ["SCP.C11"]
 THEOREMS = ["SCP.C11." + t for t in """with_zone with_zone_shows_wall convert_keeps_instant convert_shown add_duration sub_duration to_abs
 to_symmetric print_fields zone_offsets_in_range phrase_with_zone""".split()]
-RULE = ("times H:MM[:SS] in 24-hour form and 1-11 am/pm form x source zone x target zone x default zone (set_timezone) x durations; "
+RULE = ("times H:MM[:SS] in 24-hour form and 1-11 am/pm form x source zone x target zone x default zone (set_timezone) x durations (0 s .. 3 days, whole hours, whole minutes, and 2^31 .. 2^40 s, i.e. beyond 32-bit second counts); "
         "quick: random pairs over all expressible zone names and GMT+-h[:mm] forms; thorough: ALL ordered pairs of expressible "
         "zones; oracle = integer spec (instant = today's midnight UTC + wall - 60*offset; shown = (instant + 60*offset) mod 86400); "
         "non-trivial = source and target offsets differ or a duration crosses midnight; distinct = distinct (default zone, line)")
@@ -113,7 +113,7 @@ def run(ctx, model_ok):
             text = f"{ttxt} {z1t} {rng.choice(['to', 'in', 'as', 'into'])} {z2t}"
             inst, zn, zo = midnight + wall - o1 * 60, n2.upper(), o2
         elif kind in ("add", "sub"):
-            d = rng.choice([rng.randint(0, 86400 * 3), 3600 * rng.randint(0, 48), 60 * rng.randint(0, 2000)])
+            d = rng.choice([rng.randint(0, 86400 * 3), 3600 * rng.randint(0, 48), 60 * rng.randint(0, 2000), rng.randint(0, 86400 * 3), rng.randint(2 ** 31, 2 ** 33), rng.randint(2 ** 32, 2 ** 40)])
             dh, dm, ds = d // 3600, (d % 3600) // 60, d % 60
             dt = " ".join(p for p in [f"{dh} hours" if dh else "", f"{dm} minutes" if dm else "", f"{ds} seconds" if ds or not (dh or dm) else ""] if p)
             text = f"{ttxt} {z1t} {'+' if kind == 'add' else '-'} {dt}"
